@@ -6,7 +6,7 @@ the timezone definition list, settings defaults, language data, Unicode facts fo
 Files are rewritten only when their content changes (so `lake build` stays incremental).
 Also writes gen/fingerprints.json: sha256 of the position-free AST dump of every hand-modelled function.
 """
-import ast, hashlib, importlib, json, os, pickle, sys, unicodedata, glob, io
+import ast, hashlib, importlib, json, os, pickle, sys, unicodedata, glob, io, re
 
 REPO = os.environ.get("DP_REPO", "/repo")
 VERIF = os.path.dirname(os.path.dirname(os.path.abspath(__file__)))
@@ -319,6 +319,28 @@ def gen_consts():
                     if any(isinstance(x, ast.Delete) or (isinstance(x, ast.Call) and getattr(x.func, "attr", "") == "pop") for x in ast.walk(n)):
                         skips = True
     emit("/-- dictionary.py Dictionary._add_to_cache evicts the oldest key *other than* the current settings key -/\ndef evictSkipsCurrent : Bool := " + lbool(skips))
+    # the cache getters: does any of them index a class-level cache again after a statement that may insert into it?
+    dcls = [n for n in ast.walk(dd.tree) if isinstance(n, ast.ClassDef) and n.name == "Dictionary"][0]
+    def _cache_subscripts(node):
+        return [x for x in ast.walk(node) if isinstance(x, ast.Subscript) and isinstance(x.ctx, ast.Load) and re.search(r"_cache\b", ast.unparse(x.value)) and not isinstance(x.value, ast.Subscript)]
+    read_once = True
+    n_getters = 0
+    for fn in dcls.body:
+        if isinstance(fn, ast.FunctionDef) and fn.name.startswith("_get_") and "cache" in fn.name:
+            n_getters += 1
+            inserted = False
+            for st in fn.body:
+                if inserted and _cache_subscripts(st):
+                    read_once = False
+                if any(isinstance(x, ast.Call) and re.search(r"_add_to_cache|_construct_", ast.unparse(x.func)) for x in ast.walk(st)) and not isinstance(st, ast.Return):
+                    inserted = True
+                if isinstance(st, ast.Try):
+                    # a look-up in the try body, a build in the handler: the handler must not index the cache again
+                    for h in st.handlers:
+                        if _cache_subscripts(h):
+                            read_once = False
+    emit("/-- dictionary.py Dictionary._get_*cache: no getter indexes the shared cache again after the statement that may insert into it -/\ndef dictGettersReadOnce : Bool := " + lbool(read_once and n_getters >= 5))
+    emit("/-- dictionary.py Dictionary: number of cache getters the fact above was read from -/\ndef dictGetterCount : Nat := %d" % n_getters)
     for nm, var in [("reParentheses", "PARENTHESES_PATTERN"), ("reNumeral", "NUMERAL_PATTERN"), ("reKeepToken", "KEEP_TOKEN_PATTERN")]:
         RX(nm, regex_of(dd.assign(var)), "dictionary.py " + var)
 
